@@ -91,7 +91,8 @@ func rulesC01(r *Run) {
 	gateRouting(r, "R2", smKey("PlanPreChecks"), smKey("runPreChecks"), []string{"PlanStartContChecks"}, []string{"PlanDeferredChecks"})
 	gateRouting(r, "R2", smKey("BlockPreChecks"), smKey("runPreChecks"), []string{"BlockStartContChecks"}, []string{"BlockDeferredChecks"})
 	groupResultReturned(r, "R2", "runPreChecks", 2)
-	r.Expect("R2", 6)
+	ruleRunContextDetached(r, "R2")
+	r.Expect("R2", 7)
 
 	// ---- R3: execSeq sequential, ordered, gated
 	r.Kind("R3", "K2")
